@@ -1,5 +1,11 @@
 """Worker: run /repo's colliders' support_function / first_vertex / center (C03).
-Input / output JSON files (sys.argv[1], sys.argv[2])."""
+Input / output JSON files (sys.argv[1], sys.argv[2]).
+
+Besides the answers of the compiled code the worker reports
+  * `pyfunc_diff`: queries on which the interpreted source of a numba function (its .py_func)
+    returns a different point than the compiled function (1e-9 relative), and
+  * `line_hits`: the source lines of geometry.py / colliders.py / mesh.py / utils.py executed
+    by this worker's inputs (interpreted re-execution under sys.settrace)."""
 import json
 import sys
 import traceback
@@ -7,6 +13,9 @@ import traceback
 from harness import compat  # noqa: F401
 import numpy as np
 from distance3d import colliders, geometry, mesh, utils
+from harness.impl import shapes_trace as st
+
+TRACE_FILES = [geometry.__file__, colliders.__file__, mesh.__file__, utils.__file__]
 
 
 def pose4(Rm, t):
@@ -62,7 +71,46 @@ def fl(v):
     return [float(x) for x in np.asarray(v, dtype=float).reshape(-1)]
 
 
-def run_case(case):
+def same_bits(a, b):
+    """interpreted vs compiled: equal up to 1e-9 relative (numba's np.linalg.norm / np.dot kernels
+    are not bit-identical to numpy's; bitwise JIT equivalence is C20's subject)"""
+    a = np.asarray(a, dtype=float).reshape(-1)
+    b = np.asarray(b, dtype=float).reshape(-1)
+    if a.shape != b.shape:
+        return False
+    fin = np.isfinite(a) & np.isfinite(b)
+    if not np.all(fin == (np.isfinite(a) | np.isfinite(b))):
+        return False
+    return bool(np.all(np.abs(a[fin] - b[fin]) <= 1e-9 * (1.0 + np.abs(b[fin]))))
+
+
+def interpreted_replay(case, out, tracer_mods):
+    """re-run the queries of this case with the interpreted source of the numba functions, under
+    the tracer (already active); compare with the compiled answers"""
+    sh = case["shape"]
+    diffs = []
+    with st.interpreted(tracer_mods):
+        c, _ = build(dict(sh, triangles=out.get("triangles")))
+        col = c if case.get("margin") is None else colliders.Margin(c, float(case["margin"]))
+        if not same_bits(col.first_vertex(), out["first_vertex"]):
+            diffs.append("first_vertex")
+        if not same_bits(col.center(), out["center"]):
+            diffs.append("center")
+        for i, d in enumerate(case["dirs"]):
+            s = col.support_function(arr(d))
+            if not same_bits(s, out["sup"][i]):
+                diffs.append(f"support_function(dirs[{i}]): interpreted {fl(s)} compiled {out['sup'][i]}")
+        if sh["kind"] == "box":
+            T = pose4(sh["R"], sh["t"])
+            hl = arr([0.5 * x for x in sh["size"]])
+            for i, d in enumerate(case["dirs"]):
+                s = geometry.support_function_box(arr(d), T, hl)
+                if not same_bits(s, out["free_box"][i]):
+                    diffs.append(f"support_function_box(dirs[{i}])")
+    return diffs
+
+
+def run_case(case, tracer, tracer_mods):
     out = {}
     sh = case["shape"]
     try:
@@ -104,16 +152,25 @@ def run_case(case):
         out["exc"] = type(e).__name__
         out["exc_msg"] = str(e)[:300]
         out["tb"] = traceback.format_exc()[-1200:]
+        return out
+    try:
+        with tracer:
+            out["pyfunc_diff"] = interpreted_replay(case, out, tracer_mods)
+    except BaseException as e:  # noqa
+        out["pyfunc_exc"] = f"{type(e).__name__}: {str(e)[:300]}"
     return out
 
 
 def main():
     payload = json.load(open(sys.argv[1]))
-    res = [run_case(c) for c in payload["cases"]]
+    tracer = st.LineTracer(TRACE_FILES)
+    mods = [geometry, utils, mesh]
+    res = [run_case(c, tracer, mods) for c in payload["cases"]]
     consts = dict(BOX_COORDS=np.asarray(geometry.BOX_COORDS, dtype=float).tolist(),
                   PROJECTION_LENGTH_EPSILON=float(mesh.PROJECTION_LENGTH_EPSILON),
                   EPSILON=float(utils.EPSILON))
-    json.dump(dict(results=res, consts=consts), open(sys.argv[2], "w"))
+    hits = {k.split("/")[-1]: v for k, v in tracer.result().items()}
+    json.dump(dict(results=res, consts=consts, line_hits=hits), open(sys.argv[2], "w"))
 
 
 if __name__ == "__main__":
